@@ -1020,18 +1020,22 @@ impl<'a, 'ast> Typecheck<'a, 'ast> {
 
                 let expected_type = match &expected_record_type {
                     Some(expected_record_type) => {
-                        let mut expected_fields: FnvSet<_> = expected_record_type
-                            .row_iter()
+                        let mut expected_types: FnvSet<_> = expected_record_type
+                            .type_field_iter()
                             .map(|f| &f.name)
-                            .chain(expected_record_type.type_field_iter().map(|f| &f.name))
                             .collect();
 
+                        // The value fields of a record are ordered (the order decides the layout of
+                        // the record at runtime) so they must be written in the expected order
                         let expected_fields_matches = fields
                             .iter()
                             .map(|f| &f.name.value)
-                            .chain(types.iter().map(|f| &f.name.value))
-                            .all(|name| expected_fields.remove(&name))
-                            && expected_fields.is_empty();
+                            .eq(expected_record_type.row_iter().map(|f| &f.name))
+                            && types
+                                .iter()
+                                .map(|f| &f.name.value)
+                                .all(|name| expected_types.remove(&name))
+                            && expected_types.is_empty();
 
                         if expected_fields_matches {
                             // No need to do subsumption checking against the expected type as all the
